@@ -109,8 +109,12 @@ func genC13(seed uint64, tier string) *plan.Plan {
 	// Emptied owners are pruned by the coordinator at the routing push after they report no
 	// left-over data: the view must stay unchanged for two push periods plus balancer rounds.
 	quiet := int64(2*p.Cluster.RoutingPushMs + 3*p.Cluster.BalancerMs + 500)
-	sc.Ops = append(sc.Ops, plan.Op{K: "ctl.wait_stable", Dur: bound + 3*quiet, Dur2: quiet, Tag: "final"})
-	sc.Ops = append(sc.Ops, plan.Op{K: "ctl.snapshot", Flag: true})
+	// (its own phase: a writer that is still running keeps refilling owners that are about to be
+	// pruned, so the final stabilisation starts when the writer is done)
+	final := plan.Script{ID: 1, Kind: "ctl", Ops: []plan.Op{
+		{K: "ctl.wait_stable", Dur: bound + 3*quiet, Dur2: quiet, Tag: "final"},
+		{K: "ctl.snapshot", Flag: true},
+	}}
 	clients := []plan.Script{sc}
 	if r.Bool(500) {
 		// a writer keeps putting fresh keys (mostly into partitions that are still empty) through the
@@ -123,7 +127,7 @@ func genC13(seed uint64, tier string) *plan.Plan {
 		clients = append(clients, w)
 		sig += "+w"
 	}
-	p.Phases = []plan.Phase{{Name: "membership", Yields: true, Clients: clients}}
+	p.Phases = []plan.Phase{{Name: "membership", Yields: true, Clients: clients}, {Name: "final", Yields: true, Clients: []plan.Script{final}}}
 	p.Variant = sig
 	return p
 }
@@ -330,7 +334,7 @@ func oracleC13(p *plan.Plan, his []plan.Rec, res *plan.Result) {
 				viol(res, "owner-differs-under-equal-signature", "primary", "%s [%s]", strings.TrimPrefix(r.Info, "invariant:"), p.Variant)
 			}
 			if r.Err != "" && r.Op.Tag == "final" {
-				viol(res, "not-stabilised", p.Variant+stormTag(r.Err), "after events %s the cluster did not stabilise within the bound: %s", p.Variant, r.Err)
+				viol(res, "not-stabilised", p.Variant+stormTag(r.Err)+bootTag(r.Err), "after events %s the cluster did not stabilise within the bound: %s", p.Variant, r.Err)
 			}
 		case "ctl.snapshot":
 			snap = r.Snap
